@@ -12,10 +12,12 @@ from vv.verdict import Report
 LAWS = ['LawTotal', 'LawSameNodes', 'LawCollisionsKept']
 
 
-def check_case(rep, case):
+def check_case(rep, case, wrap=False):
     rep.evaluations += 1
-    b = tc.build(case)
+    b = tc.build(case, wrap=wrap)
     sig = {'kind': 'case', 'case': tc.case_id(case)}
+    if wrap:
+        sig['form'] = 'update names its updater'
     try:
         eng = tc.make_engine(b)
         before = tc.flatten(eng.state.get_value())
@@ -59,6 +61,11 @@ def check_case(rep, case):
                           'C06 after update %d (got, expected) differ at %s; case %s'
                           % (k + 1, diff, tc.case_id(case)), {'case': case, 'diff': diff})
             return
+    if getattr(b.probe, 'cached', b.update) != b.update:
+        rep.violation(dict(sig, what='update-object'),
+                      'C06 the update object the process returned was modified: %r became %r; '
+                      'case %s' % (b.update, b.probe.cached, tc.case_id(case)), {'case': case})
+        return
     nodes = [tuple(x['node']) for x in b.variables]
     if len(set(nodes)) < len(nodes) or any('..' in p['p'] for p in case['ports']) \
             or any(p['t'] == 'dict' for p in case['ports']):
@@ -165,10 +172,17 @@ def run(rep, tier, scratch, only=None):
         sel = cases[::stride]
         if stride > 1:
             rep.notes['subsample_' + name] = 'every %dth of %d cases' % (stride, len(cases))
-        for c in sel:
+        for k, c in enumerate(sel):
             if only is not None and tc.case_id(c) != only:
                 continue
             check_case(rep, c)
+            # the same case with every update written {'_value': amount, '_updater':
+            # 'accumulate'}: colliding variables and dictionary topologies always,
+            # the rest sampled
+            nodes = [tuple(x['node']) for x in c['vars']]
+            if len(set(nodes)) < len(nodes) or any(p['t'] != 'path' for p in c['ports']) \
+                    or k % 5 == 0:
+                check_case(rep, c, wrap=True)
         rep.traces += len(sel)
         if sel:
             rep.add_sample(sel[len(sel) // 2])
